@@ -1432,13 +1432,18 @@ class Evaluator:
         if isinstance(fn, (exp.Lag, exp.Lead)):
             off = fn.args.get("offset")
             k = int(off.name) if off is not None else 1
-            if fn.args.get("default") is not None:
-                raise Unsupported("LAG default")
             target = pos[i] - k if isinstance(fn, exp.Lag) else pos[i] + k
             res = NULL()
+            hits = []
             for j in range(n):
                 v = self.expr(fn.this, at[j])
-                res = ite(z3.And(part[j], pos[j] == target), v, res) if res.kind != "null" or True else v
+                hit = z3.And(part[j], pos[j] == target)
+                hits.append(hit)
+                res = ite(hit, v, res) if res.kind != "null" or True else v
+            if fn.args.get("default") is not None:
+                # LAG(x, n, default): the default stands in only when there is no row at the offset (a row holding NULL stays NULL)
+                dflt = self.expr(fn.args["default"], sc)
+                res = ite(z3.Or(*hits) if hits else FALSE, res, dflt)
             return res
         if isinstance(fn, (exp.FirstValue, exp.LastValue)):
             res = NULL()
